@@ -28,6 +28,10 @@ type Server struct {
 
 	sid [64]byte
 
+	// mu guards mailboxConn and sid, which Accept writes while Close and
+	// Addr may be called from other goroutines.
+	mu sync.Mutex
+
 	ctx context.Context //nolint:containedctx
 
 	quit      chan struct{}
@@ -82,16 +86,20 @@ func (s *Server) Accept() (net.Conn, error) {
 	default:
 	}
 
+	s.mu.Lock()
+	prevConn, prevSID := s.mailboxConn, s.sid
+	s.mu.Unlock()
+
 	// If there is currently an active connection, block here until the
 	// previous connection as been closed.
-	if s.mailboxConn != nil {
+	if prevConn != nil {
 		s.log.Debugf("Accept: have existing mailbox connection, " +
 			"waiting")
 
 		select {
 		case <-s.quit:
 			return nil, io.EOF
-		case <-s.mailboxConn.Done():
+		case <-prevConn.Done():
 			s.log.Debugf("Accept: done with existing conn")
 		}
 	}
@@ -103,38 +111,53 @@ func (s *Server) Accept() (net.Conn, error) {
 
 	// If the SID has changed from what it was previously, then we close any
 	// previous connection we had.
-	if !bytes.Equal(s.sid[:], sid[:]) && s.mailboxConn != nil {
-		err := s.mailboxConn.Stop()
+	if !bytes.Equal(prevSID[:], sid[:]) && prevConn != nil {
+		err := prevConn.Stop()
 		if err != nil {
 			s.log.Errorf("Could not close mailbox conn: %v", err)
 		}
 
-		s.mailboxConn = nil
+		prevConn = nil
 	}
 
+	s.mu.Lock()
+	s.mailboxConn = prevConn
 	s.sid = sid
+	s.mu.Unlock()
 
 	// If this is the first connection, we create a new ServerConn object.
 	// otherwise, we just refresh the ServerConn.
-	if s.mailboxConn == nil {
-		mailboxConn, err := NewServerConn(
+	var mailboxConn *ServerConn
+	if prevConn == nil {
+		mailboxConn, err = NewServerConn(
 			s.ctx, s.serverHost, s.client, sid, s.log,
 			s.onNewStatus,
 		)
-		if err != nil {
-			return nil, &temporaryError{err}
-		}
-		s.mailboxConn = mailboxConn
-
 	} else {
-		mailboxConn, err := RefreshServerConn(s.mailboxConn)
-		if err != nil {
-			return nil, &temporaryError{err}
-		}
-		s.mailboxConn = mailboxConn
+		mailboxConn, err = RefreshServerConn(prevConn)
+	}
+	if err != nil {
+		return nil, &temporaryError{err}
 	}
 
-	return s.mailboxConn, nil
+	s.mu.Lock()
+	s.mailboxConn = mailboxConn
+	s.mu.Unlock()
+
+	// Close may have run while the connection was being set up. It could
+	// not see this connection then, so it is up to us to release it: a
+	// closed listener does not hand out connections.
+	select {
+	case <-s.quit:
+		if err := mailboxConn.Stop(); err != nil {
+			s.log.Errorf("Error closing mailboxConn %v", err)
+		}
+
+		return nil, io.EOF
+	default:
+	}
+
+	return mailboxConn, nil
 }
 
 // temporaryError implements the Temporary interface that grpc uses to decide
@@ -159,8 +182,12 @@ func (s *Server) Close() error {
 
 		close(s.quit)
 
-		if s.mailboxConn != nil {
-			if err := s.mailboxConn.Stop(); err != nil {
+		s.mu.Lock()
+		mailboxConn := s.mailboxConn
+		s.mu.Unlock()
+
+		if mailboxConn != nil {
+			if err := mailboxConn.Stop(); err != nil {
 				s.log.Errorf("Error closing mailboxConn %v", err)
 			}
 		}
@@ -171,6 +198,9 @@ func (s *Server) Close() error {
 }
 
 func (s *Server) Addr() net.Addr {
+	s.mu.Lock()
+	defer s.mu.Unlock()
+
 	return &Addr{SID: s.sid, Server: s.serverHost}
 }
 
